@@ -7,7 +7,8 @@ def _ob(name, module, factory, kwargs, **extra):
     return d
 
 
-def k_batch(tier):
+def k_batch(tier, deep=False):
+    """deep: include the 15-minute N=4 time-based obligation (C01 and C07, where batch construction is the subject)."""
     q = [
         _ob("K-batch/count/N3/G1", "harness.k_batch", "k_batch", dict(N=3, G=1, mode="count", states=2)),
         _ob("K-batch/time/N3/G1", "harness.k_batch", "k_batch", dict(N=3, G=1, mode="time", states=2, active_max=1)),
@@ -18,6 +19,9 @@ def k_batch(tier):
     return q + [
         _ob("K-batch/time/N3/G1/active2", "harness.k_batch", "k_batch", dict(N=3, G=1, mode="time", states=2, active_max=2)),
         _ob("K-batch/both/N2/G2/active2", "harness.k_batch", "k_batch", dict(N=2, G=2, mode="both", states=3, active_max=2)),
+        _ob("K-batch/count/N4/G1", "harness.k_batch", "k_batch", dict(N=4, G=1, mode="count", states=2, active_max=0, sbatch_fail=False)),
+    ] + ([_ob("K-batch/time/N4/G1", "harness.k_batch", "k_batch", dict(N=4, G=1, mode="time", states=2, active_max=0, sbatch_fail=False,
+                                                                     sym_np=False))] if deep else []) + [
         _ob("K-batch/count/N3/G2", "harness.k_batch", "k_batch", dict(N=3, G=2, mode="count", states=2)),
     ]
 
@@ -213,13 +217,13 @@ def c11(tier):
 
 def obligations(prop, tier):
     table = {
-        "C01": lambda t: k_batch(t) + k_queue(t) + h_submit(t),
+        "C01": lambda t: k_batch(t, deep=True) + k_queue(t) + h_submit(t),
         "C02": lambda t: k_batch(t) + k_queue(t) + k_collect(t) + h_submit(t),
         "C03": lambda t: h_submit(t) + k_tally(t),
         "C04": lambda t: k_queue(t) + k_collect(t) + h_submit(t),
         "C05": lambda t: k_batch(t) + h_submit(t),
         "C06": lambda t: k_batch(t) + k_queue(t) + h_submit(t),
-        "C07": lambda t: k_batch(t) + h_submit(t) + h_dry(t),
+        "C07": lambda t: k_batch(t, deep=True) + h_submit(t) + h_dry(t),
         "C08": c08,
         "C09": lambda t: k_collect(t) + h_submit(t),
         "C10": lambda t: c10(t) + [o for o in c13(t) if o["name"].startswith("H-resubmit")][:1],
